@@ -124,7 +124,8 @@ EmitCell == Emit => PrintT("CELL " \o ToJson(cell))
 RouteObsOK(c, o) == LET ms == Mount(c.attach).segs IN o.engine = Routed(c.attach, PathOf(c.shape, ms)) /\ o.app = ~o.engine
 WtObsOK(c, o) ==
     IF c.hook = "deny"
-    THEN o.via = "http" /\ o.status = 403 /\ o.code = 4 /\ o.message = Codes["c4"].message /\ o.connErr = 1 /\ ~o.created /\ ~o.disturbed
+    THEN o.via = "http" /\ o.status = 403 /\ o.code = 4 /\ o.message = (IF "hooktext" \in DOMAIN o THEN o.hooktext ELSE Codes["c4"].message)
+         /\ o.connErr = 1 /\ ~o.created /\ ~o.disturbed
     ELSE /\ o.connErr = 0 /\ ~o.disturbed
          /\ CASE c.first = "new" -> o.created /\ o.via = "open"
               [] c.first = "known" -> ~o.created /\ o.via = "open" /\ o.upgrading        \* a candidate of that session: only a candidate
@@ -137,7 +138,9 @@ AdmitObsOK(c, o) ==
        THEN /\ o.connErr = 1 /\ ~o.created /\ ~o.disturbed
             /\ IF c.upgrade /\ v.code = 5
                THEN o.via = "closeframe" /\ o.text = v.message             \* refused after the websocket was accepted
-               ELSE o.via = "http" /\ o.status = v.status /\ o.code = v.code /\ o.message = v.message
+               \* (code 4 carries the hook's own error text, which the harness makes different for every cell and every refusal)
+               ELSE o.via = "http" /\ o.status = v.status /\ o.code = v.code
+                    /\ o.message = (IF v.code = 4 /\ "hooktext" \in DOMAIN o THEN o.hooktext ELSE v.message)
        ELSE /\ o.connErr = 0 /\ ~o.disturbed
             /\ o.created = (c.sid = "absent")
             /\ o.status \notin {400, 403}
